@@ -62,6 +62,8 @@ namespace verif
         long up_allocs   = 0;
         long up_frees    = 0;
         int  next_src    = 0;
+        bool        taken_before  = false; // a block has been taken: its guard zone borders the free area
+        std::size_t healed_damage = 0;     // guard bytes found overwritten when the zone was filled again
 
         void init()
         {
@@ -95,6 +97,7 @@ namespace verif
                 if (adversarial && align < 4096 && (d / align) % 2 == 0)
                     d -= align;
                 char* dbase = reinterpret_cast<char*>(d);
+                // (descending placement fills fresh memory only: the guard zones of earlier blocks are not touched)
                 std::memset(dbase + size, guard_byte, static_cast<std::size_t>(end - (dbase + size)));
                 std::memset(dbase - 64, guard_byte, 64);
                 gap = 64;
@@ -111,6 +114,13 @@ namespace verif
             if (base + size + 64 > end)
                 std::abort(); // world exhausted: infrastructure problem, not a verdict
             gap = static_cast<std::size_t>(base - cur);
+            // the gap in front of the new block starts with the guard zone behind the previous one: count what was
+            // written there before it is filled again (otherwise taking a block would heal the damage)
+            if (!carve && taken_before)
+                for (std::size_t i = 0; i < 64 && i < gap; ++i)
+                    if (static_cast<unsigned char>(cur[i]) != guard_byte)
+                        ++healed_damage;
+            taken_before = true;
             std::memset(cur, guard_byte, gap);
             cur = base + size;
             if (!carve)
